@@ -139,12 +139,34 @@ def mutations(subject, rng):
             mk("arity-on-modes", edited(i, modes=sorted(rng.sample(act, k))), position=i)
         if len(act) != want:
             mk("arity-q-all", edited(i, modes=None), position=i)
-    if sim in PREP and first_gate < n:
+    if first_gate < n:
+        if sim in PREP:
+            late_prep = {"type": PREP[sim], "modes": None, "params": {}}
+        else:  # fermionic Fock: its only preparations take occupation numbers
+            late_prep = {"type": "NumberState", "modes": None, "params": {"occupation_numbers": [1] + [0] * (d - 1)}}
         pos = rng.randrange(first_gate + 1, n + 1)
-        if pos <= n - 1 or not outcomes.is_measurement(prog[-1]["type"]):
-            mk("preparation-after-gate", inserted(pos, {"type": PREP[sim], "modes": None, "params": {}}), position=pos)
+        if pos > n - 1 and outcomes.is_measurement(prog[-1]["type"]):
+            pos = n - 1
+        # a full-width preparation after a mid-circuit measurement would also violate the mode-count rule
+        if not any(outcomes.is_measurement(x["type"]) for x in prog[:pos]):
+            mk("preparation-after-gate", inserted(pos, late_prep), position=pos)
+    # ... and after a mid-circuit measurement with no gate in between ("preparation after other instructions")
+    MID = {"PureFockSimulator": "ParticleNumberMeasurement", "PassiveSimulator": "ParticleNumberMeasurement", "FermionicPureFockSimulator": "ParticleNumberMeasurement", "GaussianSimulator": "HomodyneMeasurement"}
+    if sim in MID and d >= 2 and first_gate >= 1:
+        preps = copy.deepcopy(prog[:first_gate])
+        k = rng.randrange(1, d)
+        measured = sorted(rng.sample(range(d), k))
+        if sim in PREP:
+            late = {"type": PREP[sim], "modes": None, "params": {}}
         else:
-            mk("preparation-after-gate", inserted(n - 1, {"type": PREP[sim], "modes": None, "params": {}}), position=n - 1)
+            late = {"type": "NumberState", "modes": None, "params": {"occupation_numbers": [0] * (d - k)}}
+        tail_type = "ParticleNumberMeasurement" if sim != "GaussianSimulator" else "HomodyneMeasurement"
+        p = preps + [{"type": MID[sim], "modes": measured, "params": {}}]
+        if rng.chance(0.5) and d - k >= 2:
+            rest = [m for m in range(d) if m not in measured]
+            p.append({"type": MID[sim], "modes": [rest[0]], "params": {}})
+        p += [late, {"type": tail_type, "modes": None, "params": {}}]
+        mk("preparation-after-measurement", p, position=len(p) - 2)
     if first_gate < n:
         pos = rng.randrange(first_gate, n)
         ins = copy.deepcopy(UNMAPPED[sim])
